@@ -18,12 +18,14 @@ partial def loop (h : IO.FS.Stream) (out : IO.FS.Stream) (f : String → String)
   let line ← h.getLine
   if line.isEmpty then return ()
   out.putStrLn (f line)
+  out.flush
   loop h out f
 
 partial def loopIO (h : IO.FS.Stream) (out : IO.FS.Stream) (f : String → IO String) : IO Unit := do
   let line ← h.getLine
   if line.isEmpty then return ()
   out.putStrLn (← f line)
+  out.flush
   loopIO h out f
 
 def main (args : List String) : IO UInt32 := do
